@@ -7,8 +7,9 @@ Contracts (stabilizer.Stabilizer.__init__ / to_list, graph.Graph.to_circuit):
                    at every position cover all lists; plus all lists for n = 2]
   to_list         exact inverse on canonical strings ('+'/'-' always present): to_list(Stabilizer(L)) == canon(L), Stabilizer(to_list(s)) == s;
                   qiskit_convention=True gives the exact mirror image of each letter string
-  tuple format    R, S, phases equal the inputs (as int8), inputs unmodified; two-array form gives zero phases
-  graph format    generators X_v Z_N(v), zero phases                                  [all graphs n <= 5, seeded n = 6]
+  tuple format    R, S, phases equal the inputs (as int8), inputs unmodified; two-array form gives zero phases      [SYM: pyvc VC from the real constructor,
+                  all bit matrices of int8 / int64 dtype, n = 1..6]
+  graph format    generators X_v Z_N(v), zero phases, adjacency matrix not written     [SYM n = 1..6; GROUND all graphs n <= 5, seeded n = 6]
   circuit format  Stabilizer(circuit) generates the signed group of circuit|0..0>      [assumed Q1; evaluated in C07's domain: exhaustive <=2 gates on <=3 qubits]
   cross-format    the formats built from one signed generating set give equal R, S, phases
 """
@@ -146,6 +147,12 @@ def run(ctx: core.Ctx):
     ctx.record(fam, PROVED if okf else core.UNKNOWN, {"stores": stores})
     if not okf:
         ctx.undecide(fam, f"structure drift in Stabilizer.__init__ list branch: stores {stores}")
+    from .. import symrun
+    from ..contracts import stab as SC
+    sym = []
+    for n in range(1, 7):
+        sym += [SC.case_init_tuple(n, True, "int8"), SC.case_init_tuple(n, False, "int8"), SC.case_init_tuple(n, True, "int64"), SC.case_init_graph(n)]
+    symrun.run(ctx, sym, label="sym")      # matrix and graph formats: VCs from the real constructor, all bit matrices / all graphs, n = 1..6
     jobs = [(strings_job, n) for n in range(1, 7 if not ctx.quick else 6)]
     res = core.pmap(lambda j: j[0](j[1]), jobs + [(all_lists_job, 0)] + [(formats_job, (n, ctx.seed + n, 200 if ctx.quick else 2000)) for n in range(2, 7)], chunks=1)
     gjobs = []
@@ -179,7 +186,7 @@ def run(ctx: core.Ctx):
                 ctx.violate(fam, key[:300], what, rp)
     ctx.extra["ground_time_s"] = round(time.time() - t, 2)
     ctx.extra["observations"] = ["Graph(n).to_circuit() raises TypeError for an edgeless graph (cz(*zip(*[]))); outside the property sentence, recorded as an observation"]
-    ctx.trust("oracle label parser / tableau simulator", "Q1 (ASSUMED) for the circuit format")
+    ctx.trust("oracle label parser / tableau simulator", "Q1 (ASSUMED) for the circuit format", *symrun.PYVC_TRUST)
     ctx.assume("string format: per-generator enumeration (all 3*4^n strings at every position, n<=5 quick / 6 thorough) covers all lists by the column frame; all lists for n=2 directly",
                "circuit format: exhaustive only for <=2 gates on <=3 qubits, seeded long circuits otherwise (Q1 assumed)", "cross-format on seeded generator lists (bounded)")
     return core.finish(ctx, "proof", "format contracts discharged by complete enumeration (strings per generator, graphs) + frame; circuit format under assumed Q1",
